@@ -1378,5 +1378,24 @@ def serializable_core(graph: ir.Graph) -> bool:
 
     r = ok_graph(graph, [])
     ids = [id(v) for v in all_defs]
-    return r and len(ids) == len(set(ids))
+    return r and len(ids) == len(set(ids)) and info_core(graph)
+
+
+def info_core(graph: ir.Graph) -> bool:
+    """mirror of the Lean predicate `infoGB`: a non-input, non-output initializer has a type and a
+    shape; an empty-named (live) node output carries no type and no documentation"""
+    for g in iter_graph_tree(graph):
+        for v in g.initializers.values():
+            if any(v is x for x in g.inputs) or any(v is x for x in g.outputs):
+                continue
+            tok = token_of_value(v)[0]
+            if tok[0] is None or tok[1] is None:
+                return False
+        for n in g:
+            for v in _strip_trailing(n.outputs):
+                if not v.name:
+                    tok = token_of_value(v)[0]
+                    if tok[0] is not None or tok[2] is not None:
+                        return False
+    return True
 
